@@ -48,6 +48,8 @@ pub fn run(name: &str, seed: u64, rest: &[String]) -> String {
         "adpcm" => adpcm_oracle(seed),
         "dbc_paths" => dbc_paths(seed),
         "extract_paths" => extract_paths(seed),
+        "mod_options" => mod_options(seed),
+        "interop_dirs" => interop_dirs(),
         "cli_extract" => cli_extract(rest.first().map(|s| s.as_str()).unwrap_or("")),
         "wmo_known" => wmo_known(rest.first().map(|s| s.as_str()).unwrap_or("")),
         _ => { let _ = rest; format!("{{\"oracle\":{},\"error\":\"unknown oracle\"}}", js(name)) }
@@ -1815,4 +1817,84 @@ fn cli_extract(binary: &str) -> String {
         }
     }
     none("cli_extract", tried)
+}
+
+
+// ---- C06: every add option of the editor must give a file that reads back after reopen ----------------------------
+fn mod_options(seed: u64) -> String {
+    use wow_mpq::{AddFileOptions, Archive, ArchiveBuilder, ListfileOption, MutableArchive};
+    use wow_mpq::compression::CompressionMethod;
+    let mut rng = Rng(seed ^ 0x0F7);
+    let mut tried = 0;
+    for (ci, comp) in [CompressionMethod::None, CompressionMethod::Zlib].into_iter().enumerate() {
+        for (enc, fix) in [(false, false), (true, false), (true, true)] {
+            for name in ["plain.bin", "dir\\inner.bin"] {
+                for len in [0usize, 1, 3, 4, 5, 64, 700] {
+                    let dir = tempfile::tempdir().unwrap();
+                    let path = dir.path().join("m.mpq");
+                    if let Err(e) = ArchiveBuilder::new().listfile_option(ListfileOption::Generate).add_file_data(b"seed".to_vec(), "seed.txt").build(&path) {
+                        return format!("{{\"oracle\":\"mod_options\",\"error\":{:?}}}", e.to_string());
+                    }
+                    let data: Vec<u8> = if ci == 1 { (0..len).map(|i| (i % 7) as u8).collect() } else { rng.bytes(len) };
+                    let desc = format!("editor add_file_data({} bytes, {:?}) compression={} encrypt={} fix_key={}, close, reopen, read", len, name, if ci == 0 { "none" } else { "zlib" }, enc, fix);
+                    {
+                        let mut m = match MutableArchive::open(&path) { Ok(m) => m, Err(e) => return format!("{{\"oracle\":\"mod_options\",\"error\":{:?}}}", e.to_string()) };
+                        let mut o = AddFileOptions::new().compression(comp);
+                        if enc { o = o.encrypt(); }
+                        if fix { o = o.fix_key(); }
+                        if let Err(_e) = m.add_file_data(&data, name, o) { continue; }   // a refused addition is allowed
+                        if let Err(e) = m.flush() { return fail("mod_options", desc, format!("flush Err({})", e), "Ok".into()); }
+                    }
+                    tried += 1;
+                    let mut a = match Archive::open(&path) { Ok(a) => a, Err(e) => return fail("mod_options", desc, format!("reopen Err({})", e), "Ok".into()) };
+                    match a.read_file(name) {
+                        Ok(got) if got == data => {}
+                        Ok(got) => return fail("mod_options", desc, format!("{} different bytes", got.len()), "the added bytes".into()),
+                        Err(e) => return fail("mod_options", desc, format!("read_file Err({})", e), "the added bytes".into()),
+                    }
+                    match a.read_file("seed.txt") { Ok(g) if g == b"seed" => {}, other => return fail("mod_options", desc, format!("untouched seed.txt reads {:?}", other.map(|g| g.len()).map_err(|e| e.to_string())), "4 bytes".into()) }
+                }
+            }
+        }
+    }
+    none("mod_options", tried)
+}
+
+// ---- C02: file keys come from the plain file name (published format: the part after the last path separator) ----------
+fn interop_dirs() -> String {
+    use wow_mpq::{ArchiveBuilder, ListfileOption};
+    let rd32 = |b: &[u8], o: usize| u32::from_le_bytes([b[o], b[o + 1], b[o + 2], b[o + 3]]);
+    let dir = tempfile::tempdir().unwrap();
+    let path = dir.path().join("d.mpq");
+    let files: Vec<(&str, Vec<u8>, bool)> = vec![
+        ("staredit\\scenario.chk", (0..64u8).collect(), false), ("a\\b\\deep.dat", (0..48u8).map(|x| x.wrapping_mul(7)).collect(), true), ("top.dat", vec![5u8; 32], true),
+    ];
+    let mut b = ArchiveBuilder::new().listfile_option(ListfileOption::None);
+    for (n, d, fix) in &files { b = b.add_file_data_with_encryption(d.clone(), n, 0, *fix, 0); }
+    if let Err(e) = b.build(&path) { return format!("{{\"oracle\":\"interop_dirs\",\"error\":{:?}}}", e.to_string()); }
+    let raw = std::fs::read(&path).unwrap();
+    let hpos = rd32(&raw, 16) as usize; let bpos = rd32(&raw, 20) as usize; let hn = rd32(&raw, 24) as usize; let bn = rd32(&raw, 28) as usize;
+    let words = |o: usize, n: usize| -> Vec<u32> { (0..n * 4).map(|i| rd32(&raw, o + i * 4)).collect() };
+    let ht = decrypt(&words(hpos, hn), hash(b"(hash table)", 0x300));
+    let bt = decrypt(&words(bpos, bn), hash(b"(block table)", 0x300));
+    for (name, data, fix) in &files {
+        let nb = name.as_bytes();
+        let (a, bb, mut idx) = (hash(nb, 0x100), hash(nb, 0x200), (hash(nb, 0) as usize) & (hn - 1));
+        let mut found = None;
+        for _ in 0..hn { let e = &ht[idx * 4..idx * 4 + 4]; if e[3] == 0xFFFF_FFFF { break; } if e[0] == a && e[1] == bb && e[3] < 0xFFFF_FFFE { found = Some(e[3] as usize); break; } idx = (idx + 1) & (hn - 1); }
+        let bi = match found { Some(i) if i < bn => i, _ => return fail("interop_dirs", format!("independent lookup of {}", name), "not found".into(), "found".into()) };
+        let e = &bt[bi * 4..bi * 4 + 4];
+        let (pos, csize, fsize) = (e[0] as usize, e[1] as usize, e[2] as usize);
+        let plain = match name.rfind(|c| c == '\\' || c == '/') { Some(i) => &name[i + 1..], None => name };
+        let base = hash(plain.as_bytes(), 0x300);
+        let key = if *fix { base.wrapping_add(pos as u32) ^ (fsize as u32) } else { base };
+        let body = &raw[pos..pos + csize];
+        let w: Vec<u32> = body[..body.len() / 4 * 4].chunks(4).map(|c| u32::from_le_bytes([c[0], c[1], c[2], c[3]])).collect();
+        let dec: Vec<u8> = decrypt(&w, key).iter().flat_map(|x| x.to_le_bytes()).collect();
+        if &dec != data {
+            return fail("interop_dirs", format!("encrypted file {:?} (fix_key={}) built by ArchiveBuilder, decrypted by an independent reader with the published key: hash of the PLAIN name {:?} (part after the last separator){}", name, fix, plain, if *fix { ", + position ^ size" } else { "" }),
+                "different bytes".into(), "the added bytes".into());
+        }
+    }
+    none("interop_dirs", files.len())
 }
